@@ -462,6 +462,17 @@ class HttpParser(abc.ABC, Generic[_MsgT]):
                         # code is only present on responses
                         code = getattr(msg, "code", 0)
 
+                        # https://www.rfc-editor.org/rfc/rfc9110#section-9.3.6-12
+                        # A CONNECT request has no content: framing headers
+                        # must not decide whether the bytes that follow are
+                        # tunnel data or further requests to this server.
+                        if (
+                            method == METH_CONNECT
+                            and not code
+                            and ((length is not None and length > 0) or msg.chunked)
+                        ):
+                            raise BadHttpMessage("CONNECT request cannot have a body")
+
                         # Only a 101 response switches protocols; any other
                         # status carrying Upgrade merely advertises them.
                         upgraded = (
